@@ -1,3 +1,4 @@
+import Abyss.Gen.Engine
 import Abyss.Ops
 import Abyss.Scan
 import Abyss.Stats
@@ -419,8 +420,80 @@ def handleRb (r : Rb) (args : List String) : Rb × String :=
     ({ r with st := some s', k := k', closed := true }, "ok")
   | _ => (r, "bad-op")
 
+/-! ## the engine generated from the Rust source (`Abyss/Gen/Engine.lean`), on bytes
+
+`ge <name> open <kt> <n>` starts from the rendered image of a fresh map; `ge <name> put|get|del|inc|len …`
+run `Gen.putKt` … on the three byte images; `ge <name> cmp <dir>` compares them with the real files.
+The harness sends every operation to the real crate, to the hand model and here (facets `gen-api`,
+`gen-bytes`): a direct validation of the translated code against the compiled code. -/
+initialize geRef : IO.Ref (List (String × KeyType × Nat × DbSt)) ← IO.mkRef []
+
+def geCmp (kt : KeyType) : List Nat → List Nat → Option Ordering :=
+  match kt with
+  | .string => Gen.cmpU8String | .bytes => Gen.cmpU8Bytes | .u64 => Gen.cmpU8U64
+  | .i64 => Gen.cmpU8I64 | .vu64 => Gen.cmpU8Vu64
+
+def handleGe (name cmd : String) (args : List String) : IO String := do
+  let l ← geRef.get
+  let put (kt : KeyType) (n : Nat) (d : DbSt) : IO Unit :=
+    geRef.set ((name, kt, n, d) :: l.filter (fun e => e.1 != name))
+  match cmd, args with
+  | "open", [kt, n] =>
+    match parseKt kt, n.toNat? with
+    | some kt, some n =>
+      let img := render kt (Store.init n)
+      put kt n ⟨⟨img.htx, 0⟩, ⟨img.key, 0⟩, ⟨img.val, 0⟩⟩
+      return "ok"
+    | _, _ => return "bad-op"
+  | _, _ =>
+    match l.find? (fun e => e.1 == name) with
+    | none => return "no-map"
+    | some (_, kt, n, d) =>
+      match cmd, args with
+      | "put", [k, v] =>
+        match parseBytes k, parseBytes v with
+        | some k, some v =>
+          match Gen.putKt keyCfg valCfg n (geCmp kt) (hashValue k) k v d with
+          | some (_, d') => put kt n d'; return "ok"
+          | none => return "panic"
+        | _, _ => return "bad-op"
+      | "get", [k] =>
+        match parseBytes k with
+        | some k =>
+          match Gen.getKt n (geCmp kt) (hashValue k) k d with
+          | some (r, d') => put kt n d'; return reprOpt r
+          | none => return "panic"
+        | none => return "bad-op"
+      | "del", [k] =>
+        match parseBytes k with
+        | some k =>
+          match Gen.delKt keyCfg valCfg n (geCmp kt) (hashValue k) k d with
+          | some (r, d') => put kt n d'; return reprOpt r
+          | none => return "panic"
+        | none => return "bad-op"
+      | "inc", [k] =>
+        match parseBytes k with
+        | some k =>
+          match Gen.includesKeyKt n (geCmp kt) (hashValue k) k d with
+          | some (r, d') => put kt n d'; return toString r
+          | none => return "panic"
+        | none => return "bad-op"
+      | "len", [] =>
+        match Gen.lenKt d with
+        | some (r, d') => put kt n d'; return toString r
+        | none => return "panic"
+      | "cmp", [dir] =>
+        let h ← cmpFile d.htx.bytes s!"{dir}/{name}.htx"
+        let k ← cmpFile d.key.bytes s!"{dir}/{name}.key"
+        let v ← cmpFile d.val.bytes s!"{dir}/{name}.val"
+        return s!"htx={h} key={k} val={v}"
+      | _, _ => return "bad-op"
+
 def handle (ms : Maps) (line : String) : IO (Maps × String) := do
   match line.trimAscii.toString.splitOn " " with
+  | "ge" :: name :: cmd :: args => do
+    let a ← handleGe name cmd args
+    return (ms, a)
   | "gen" :: args => return (ms, genLine args)
   | ["cov"] => do
     let l ← covRef.get
